@@ -61,6 +61,7 @@ class Interp(OpsMixin, BuiltinsMixin):
         self.journal = []
         self.callstack = []
         self.watch = {}
+        self.stubs = {}
         self.notes = []
         self.sym_counter = 0
         self.fork_limit = 4096
@@ -565,7 +566,14 @@ class Interp(OpsMixin, BuiltinsMixin):
             if isinstance(ty, ClassVal) and ec is not None and ec.is_subclass(ty):
                 return True
             if isinstance(ty, External) and ec is None and isinstance(e.exc, External):
-                return ty.name == e.exc.name
+                if ty.name == e.exc.name:
+                    return True
+            if isinstance(ty, ClassVal) and ty.builtin and ec is None and isinstance(e.exc, External):
+                # an exception raised by an external binding: it is an Exception
+                # (and whatever builtin class the stand-in says it derives from)
+                bases = getattr(e.exc, "exc_bases", ("Exception", "BaseException"))
+                if ty.name in bases:
+                    return True
         return False
 
     # loops -------------------------------------------------------------
@@ -788,6 +796,9 @@ class Interp(OpsMixin, BuiltinsMixin):
         w = self.watch.get(f.qualname)
         if w is not None:
             w(self, f, locs, node, frame)
+        st = self.stubs.get(f.qualname) or self.stubs.get("*." + f.name)
+        if st is not None:
+            return st(self, f, locs, node, frame)
         nf = Frame(self, f.module, func=f, locals_=locs, parent=f.closure)
         self.callstack.append((f.qualname, getattr(node, "lineno", None)))
         try:
